@@ -9,7 +9,7 @@ From SV Require Import KV.KvBase KV.KvLex KV.KvParse KV.KvSym KV.KvRoundtrip.
 From SV Require Import Fmt.VmfText Fmt.VmfTextProofs Fmt.VmfBlocks Fmt.VmfBlocksProofs Fmt.VmfFields Fmt.VmfFieldsProofs.
 From SV Require Import Fmt.VmfNum Fmt.VmfNumProofs Fmt.VmfGuard Fmt.VmfGuardProofs.
 From SV Require Import Fmt.VmfLite Fmt.VmfLiteProofs Fmt.VmfFlags Fmt.VmfFlagsProofs Fmt.VmfTok Fmt.VmfTokProofs Fmt.VmfPlane Fmt.VmfPlaneProofs.
-From SV Require Import Fmt.VmfIds Fmt.VmfIdsProofs Fmt.VmfTree Fmt.VmfTreeProofs.
+From SV Require Import Fmt.VmfIds Fmt.VmfIdsProofs Fmt.VmfTree Fmt.VmfTreeProofs Fmt.VmfSets Fmt.VmfSetsProofs.
 From SV Require Import Gen.VmfTemplates_gen Gen.VmfKeys_gen Gen.VmfDispSizes_gen Gen.VmfOrder_gen Gen.VmfProg_gen Gen.VmfFieldsCfg_gen Gen.VmfNumFmt_gen Gen.VmfLite_gen Gen.VmfFlags_gen.
 Import ListNotations.
 
@@ -366,3 +366,17 @@ Proof. exact tree_children_not_read_refuted. Qed.
 Example c06_tree_example : wf nat [ex_solid; ex_side] ex_tree /\
   parse_t nat nat 0%nat tree_ex_dec [ex_solid; ex_side] (export_t nat nat 0%nat tree_ex_enc [ex_solid; ex_side] ex_tree) = ex_tree.
 Proof. split; [exact ex_tree_wf | exact (proj1 tree_example)]. Qed.
+
+(** 16. Membership sets (round 4).  Visgroup and group membership are Python sets: their iteration order depends on the
+    history of insertions and removals.  Gen/VmfSets_gen.v lists every loop of an export method over a set-typed attribute
+    with whether it iterates [sorted(...)]; the obligation [membership_lines_in_canonical_order] is [member_loops_ok].
+    Written in canonical order, the lines do not depend on the iteration order (so the set re-parsed from them is written
+    identically the second time) and are exactly the elements of the set; written in iteration order they do depend on it. *)
+Theorem c06_membership_lines_canonical : forall s1 s2 : list Z, NoDup s1 -> NoDup s2 -> same_set s1 s2 ->
+  write_members true s1 = write_members true s2.
+Proof. exact members_canonical. Qed.
+Theorem c06_membership_lines_content : forall s : list Z, same_set (write_members true s) s.
+Proof. exact members_content. Qed.
+Theorem c06_membership_iteration_order_refuted : same_set [8; 1]%Z [1; 8]%Z /\
+  write_members false [8; 1]%Z <> write_members false [1; 8]%Z /\ write_members true [8; 1]%Z = write_members true [1; 8]%Z.
+Proof. exact members_iteration_order_refuted. Qed.
